@@ -10,7 +10,8 @@ import (
 
 // jksLengthsPlausible walks the entries of a JKS/JCEKS keystore and refuses length fields that exceed the bytes that
 // follow them. jks-go allocates make([]byte, n) from 32-bit lengths taken from the file before reading, so a
-// 40-byte file could otherwise demand 4 GB. Secret-key entries (serialized Java objects) end the walk.
+// 40-byte file could otherwise demand 4 GB. Secret-key entries (serialized Java objects) end the walk; entries of
+// an unknown type are stepped over exactly as jks-go steps over them, so that what follows them is still checked.
 func jksLengthsPlausible(data []byte) bool {
 	if len(data) < 12 {
 		return true // too short: the library reports it
@@ -67,8 +68,10 @@ func jksLengthsPlausible(data []byte) bool {
 				return true
 			}
 		case 2:
+		case 3:
+			return true // secret-key entry (a serialized Java object of unknown extent): not walked
 		default:
-			return true // secret-key entry or unknown: not walked
+			continue // unknown entry type: jks-go keeps the alias and date and goes on with the next entry
 		}
 		for c := uint64(0); c < certs && off < len(data) && !truncated; c++ {
 			if !skip(u16()) { // certificate type
